@@ -75,4 +75,12 @@ CLAIMED = {
              'result is within ONE ulp. Proof: the loop is the integer Newton iteration; halving phase + quadratic phase convergence within int_bits/2+8 steps (the code runs >= int_bits/2+10 '
              'after fix d5514a8, which this check motivated). Correspondence + exact bracket verdict in the driver + mpmath search oracle.',
         design_ref='7/C13', note=COMMON_NOTE + ' mpmath is used only to search for failing inputs.', technique='Lean 4 proof (integer Newton convergence) over executable model + differential correspondence'),
+    'C11': dict(
+        text='Every model function returns ONE Outcome (release value + "a debug-only check fires" flag); theorem profiles_agree: whenever the checking build returns it returns the '
+             'release value, for every modelled call; theorem no_debug_only_panic_holds / more_families: the checked/saturating/wrapping/overflowing forms of arithmetic, rounding, remainders, '
+             'Euclidean division, float conversions and Wrapping programs never set the flag (corollaries of C02 C05 C06 C07 C18; sqrt: C13). The tie to the code is the point of this check: the '
+             'union corpus of the other properties (1.2 M requests in quick) is executed by the harness built WITH and WITHOUT debug assertions/overflow checks and both are compared with the '
+             'model projections. Parsing/formatting requests join the corpus once their models are merged. Defects D4, D5, D8 (profile-dependent) were found this way and repaired.',
+        design_ref='7/C11', note=COMMON_NOTE + ' Both profiles use opt-level 1; code generation differences beyond the two flags are outside the model.',
+        technique='Lean 4 proof (Outcome discipline) + two-profile differential correspondence'),
 }
